@@ -14,6 +14,9 @@ NPROC = os.cpu_count() or 4
 
 ENV = dict(os.environ)
 ENV.update({"CARGO_NET_OFFLINE": "true", "CARGO_TARGET_DIR": TARGET, "RUST_BACKTRACE": "0"})
+# temporary files of the harness (stored values, probe files) stay under /verif/.cache, not /tmp
+os.makedirs(os.path.join(CACHE, "tmp"), exist_ok=True)
+ENV["TMPDIR"] = os.path.join(CACHE, "tmp")
 
 
 def seed():
